@@ -58,8 +58,9 @@ class Entity(ABC):
         self._uid = (
             str2uuid(uid) if isinstance(str2uuid(uid), uuid.UUID) else uuid.uuid4()
         )
-        if self.workspace.find_entity(self._uid) is not None:
-            raise RuntimeError(f"Key '{self._uid}' already used.")
+        for key in (self._uid, str2uuid(kwargs.get("ID"))):
+            if isinstance(key, uuid.UUID) and self.workspace.find_entity(key):
+                raise RuntimeError(f"Key '{key}' already used.")
 
         self._allow_delete = True
         self._allow_move = True
